@@ -52,6 +52,8 @@ func facts() map[string]any {
 	now := time.Unix(2000000000, 0)
 	// an RRSIG that expired an hour ago, record TTL one hour
 	expired := dnsutil.VerifC04GetRRSIGTTL(mkSig("x.", 3600, uint32(now.Unix()-3600)), now)
+	// the same with an inverted window (Inception numerically after Expiration)
+	expiredInv := dnsutil.VerifC04GetRRSIGTTL(invert(mkSig("x.", 3600, uint32(now.Unix()-3600)), true), now)
 	// an RRSIG expiring in 7 s, record TTL one hour
 	short := dnsutil.VerifC04GetRRSIGTTL(mkSig("x.", 3600, uint32(now.Unix()+7)), now)
 	// does a 40 s signature window bound a negative answer whose SOA says 300 s?
@@ -89,6 +91,7 @@ func facts() map[string]any {
 		"positive_max_ns":       int64(posMax),
 		"rrsig_expired_ttl_ns":  int64(expired),
 		"rrsig_short_ttl_ns":    int64(short),
+		"rrsig_expired_inverted_ttl_ns": int64(expiredInv),
 		"neg_sig40_soa300_s":    int64((neg + time.Second - 1) / time.Second),
 		"nodata_soamin60_s":     int64((soamin + time.Second - 1) / time.Second),
 		"alias_soamin60_s":      int64((alias + time.Second - 1) / time.Second),
